@@ -5,6 +5,9 @@
 # touched and other work going on in them is not disturbed. Prints the check's output and the
 # exit status. Scratch copies are removed afterwards.
 set -u
+# one evaluation at a time (shared build cache /tmp/evalcache)
+exec 9>/tmp/evalcache.lock
+flock 9
 PATCH=$(readlink -f "$1"); PROP=$2; TIER=${3:-quick}; SEED=${4:-1}
 ID=$$
 R=/tmp/evalrepo-$ID; V=/tmp/evalverif-$ID
